@@ -87,6 +87,17 @@ func c05Monitor(args []string) int {
 		p, _ := position.NewPositionFen(fen)
 		positions = append(positions, GamePos{Root: fen, P: p})
 	}
+	// roots at which a move draws at once (clock 99 -> 100, or a third occurrence): such a root move is not searched
+	for _, fen := range []string{"6k1/5ppp/q3p3/3p4/8/8/8/3R2K1 w - - 99 80", "8/8/8/8/8/k7/8/K6R w - - 99 80", "r3k3/8/8/8/8/8/4PPPP/4K2R w K - 99 60", "6k1/5ppp/8/8/8/8/q7/1K1R4 w - - 98 70"} {
+		p, _ := position.NewPositionFen(fen)
+		positions = append(positions, GamePos{Root: fen, P: p})
+	}
+	for k := 0; k < 6; k++ {
+		if g, ok := w.shuffleGame(); ok {
+			cp := *g.P
+			positions = append(positions, GamePos{Root: g.Root, Moves: g.Moves, P: &cp})
+		}
+	}
 	// roots with several captures that are answered by a recapture (a continuation exists below the first root moves)
 	for _, fen := range []string{"r1bqkb1r/ppp2ppp/2n1pn2/3p4/3PP3/2N2N2/PPP2PPP/R1BQKB1R w KQkq - 0 5",
 		"r3k2r/p1ppqpb1/bn2pnp1/3PN3/1p2P3/2N2Q1p/PPPBBPPP/R3K2R w KQkq - 0 1", "r1bq1rk1/pp2ppbp/2np1np1/8/3NP3/2N1BP2/PPPQ2PP/R3KB1R b KQ - 2 8"} {
